@@ -1379,7 +1379,8 @@ class Vector():
 			if dtype is not None:
 				for x in extra:
 					dtype = dtype.promote_with(x)
-			return Vector(self._underlying + extra, dtype=dtype)
+			# a list, so that the result owns its storage: tuple + () is the very same tuple object
+			return Vector(list(self._underlying + extra), dtype=dtype)
 
 		if isinstance(other, Vector):
 			if (self._dtype is not None and other.schema() is not None
@@ -1420,7 +1421,7 @@ class Vector():
 		"""
 		# Convert other to Vector and concatenate with self
 		if isinstance(other, Iterable) and not isinstance(other, (str, bytes, bytearray)):
-			return Vector(tuple(other) + self._underlying,
+			return Vector(list(tuple(other) + self._underlying),  # own storage: () + t is t itself
 				None,  # other doesn't have a default element
 				None,
 				False)
